@@ -44,6 +44,7 @@ This file is part of libECBUFR.
 static void bufr_copy_DescValue ( BufrDescValue *dest, BufrDescValue *src );
 static void bufr_free_desc_array( char *list );
 static char *bufr_next_tmplt_value( char **rest, const char *delims );
+static int   bufr_print_tmplt_value( char *outstr, const BufrValue *bv );
 
 /**
  * @english
@@ -572,6 +573,7 @@ BUFR_Template *bufr_load_template( const char *filename, BUFR_Tables *mtbls )
    int64_t      ival64;
    int32_t      ival32;
    float        fval;
+   double       dval;
    char        *kptr = NULL, *ptr;
    int          debug;
    char         errmsg[256];
@@ -772,6 +774,14 @@ BUFR_Template *bufr_load_template( const char *filename, BUFR_Tables *mtbls )
                         }
                      break;
                   case VALTYPE_FLT64  :
+                     code.values[vpos] = bufr_create_value( vtype );
+                     if (strcmp( tok, "MSNG" ) != 0)
+                        {
+                        dval = strtod( tok, NULL );
+                        if (!bufr_is_missing_double( dval ))
+                           bufr_value_set_double( code.values[vpos], dval );
+                        }
+                     break;
                   case VALTYPE_FLT32  :
                      code.values[vpos] = bufr_create_value( vtype );
                      if (strcmp( tok, "MSNG" ) != 0)
@@ -869,6 +879,39 @@ static char *bufr_next_tmplt_value( char **rest, const char *delims )
 
 /**
  * @english
+ * Print a default value for a template definition file.  Same as
+ * bufr_print_value() except for reals, which are written with as many 
+ * significant digits as it takes to read exactly the same value back: 15 if 
+ * that is enough, 17 otherwise.
+ * @param  outstr  output string
+ * @param  bv      value to print
+ * @return 0 if no value, 1 if there was something to print.
+ * @endenglish
+ * @francais
+ * @todo translate to French
+ * @endfrancais
+ * @ingroup template internal
+ */
+static int bufr_print_tmplt_value( char *outstr, const BufrValue *bv )
+   {
+   double dval;
+
+   if ((bv != NULL)&&((bv->type == VALTYPE_FLT32)||(bv->type == VALTYPE_FLT64)))
+      {
+      dval = bufr_value_get_double( bv );
+      if (!bufr_is_missing_double( dval ))
+         {
+         sprintf( outstr, "%.15g", dval );
+         if (strtod( outstr, NULL ) != dval)
+            sprintf( outstr, "%.17g", dval );
+         return 1;
+         }
+      }
+   return bufr_print_value( outstr, bv );
+   }
+
+/**
+ * @english
  *    bufr_save_template( str_template, bufr_get_dataset_template(dts)  
  *    (char *filename, BUFR_Template *tmplt)
  * Save a template object to a template definition file. Which can be
@@ -922,7 +965,7 @@ int bufr_save_template( const char *filename, BUFR_Template *tmplt )
             if (j > 0)
                fprintf( fp, "," );
             errmsg[0] = '\0';
-            if (bufr_print_value( errmsg, code->values[j] ))
+            if (bufr_print_tmplt_value( errmsg, code->values[j] ))
                {
                fprintf( fp, "%s", errmsg );
                }
